@@ -90,3 +90,25 @@ def call_module_function(call, inputs):
         f = getattr(f, p)
     args = [resolve(a, inputs) for a in call.get("args", [])]
     return f(*args)
+
+
+def call_nonneg_sample_size(call, inputs):
+    """deterministic sample size with a recording test: returns the estimate, the population handed to the test and
+    the history the test returned (alpha_mart with its default estimator)"""
+    from shangrla.core.NonnegMean import NonnegMean
+    x = np.array([num(v) for v in inputs["x"]], dtype=float)
+    N = int(inputs["N"])
+    u = num(inputs["u"])
+    rec = {}
+    obj = NonnegMean(u=u, N=N, t=u / 2)
+    real = obj.test
+
+    def test(pop, **kw):
+        rec["pop"] = np.array(pop, dtype=float)
+        r = real(pop, **kw)
+        rec["hist"] = r[1]
+        return r
+
+    obj.test = test
+    ss = obj.sample_size(x, alpha=num(inputs["alpha"]))
+    return {"sam_size": ss, "pop": rec["pop"], "hist": rec["hist"]}
